@@ -16,7 +16,7 @@ use std::sync::Arc;
 const RICH: &str = "<block name=\"n\" affects=\":m\" keep-sorted keep-unique line-pattern=\"^x\" line-count=\"<1\">";
 
 fn tokens(kit: &Kit) -> Vec<&'static str> {
-    let mut t: Vec<&'static str> = vec!["\n", "<block", "</block>", ">", " name=\"", "\"", RICH, "\u{a0}", "é\u{301}", "😀", "<"];
+    let mut t: Vec<&'static str> = vec!["\n", "<block", "</block>", ">", " name=\"", "\"", RICH, "\u{a0}", "é\u{301}", "😀", "<", "\r"];
     let mut add = |s: &'static str| {
         if !t.contains(&s) {
             t.push(s);
